@@ -25,7 +25,14 @@ g++ -std=c++17 -O1 -pthread -fno-access-control $XF -I$WT/include $D/demo.cpp -o
 tail -3 /tmp/confirm_demo_mut$SLOT.out | cut -c1-300 >> $OUT
 if [ ! -d $WT/_build ]; then cmake -G Ninja -S $WT -B $WT/_build -DCMAKE_BUILD_TYPE=RelWithDebInfo -DQUILL_BUILD_TESTS=ON > /dev/null 2>&1; fi
 cmake --build $WT/_build -j$J > $OUT.suitebuild 2>&1; echo "suite_build_rc=$?" >> $OUT
-ctest --test-dir $WT/_build -j$J --timeout 300 -E unbounded_unlimited_queue > $OUT.ctest 2>&1; echo "suite_rc=$?" >> $OUT
+ctest --test-dir $WT/_build -j$J --timeout 300 -E unbounded_unlimited_queue > $OUT.ctest 2>&1; RC=$?
+if [ $RC -ne 0 ]; then
+  # timing-based tests (stopwatch_tsc) fail now and then on a loaded machine: the failed ones are run once more, alone
+  grep -A3 "tests FAILED" $OUT.ctest | tr '\n' ' ' | cut -c1-200 >> $OUT; echo >> $OUT
+  ctest --test-dir $WT/_build -j1 --timeout 300 --rerun-failed > $OUT.ctest 2>&1; RC=$?
+  echo "suite_rerun_of_failed_tests_alone=yes" >> $OUT
+fi
+echo "suite_rc=$RC" >> $OUT
 grep "tests passed" $OUT.ctest >> $OUT
 git checkout -q -- . ; git reset -q --hard
 rm -f /tmp/confirm_demo_orig$SLOT /tmp/confirm_demo_mut$SLOT
